@@ -448,6 +448,34 @@ impl<T> Kind for Swp<T> {
     }
 }
 
+/// arc-swap's `RefCnt` glue for ThinArc as a handle kind.
+pub struct SwpThin<H, T>(pub *mut core::ffi::c_void, core::marker::PhantomData<(H, T)>);
+impl<H, T> Kind for SwpThin<H, T> {
+    type P = HS<H, T>;
+    fn from_arc(a: Arc<Self::P>) -> Self {
+        SwpThin(<ThinArc<H, T> as arc_swap::RefCnt>::into_ptr(Arc::into_thin(a)), core::marker::PhantomData)
+    }
+    fn into_arc(self) -> Arc<Self::P> {
+        Arc::from_thin(unsafe { <ThinArc<H, T> as arc_swap::RefCnt>::from_ptr(self.0) })
+    }
+    fn dup(&self) -> Self {
+        let t = ManuallyDrop::new(unsafe { <ThinArc<H, T> as arc_swap::RefCnt>::from_ptr(self.0) });
+        assert!(<ThinArc<H, T> as arc_swap::RefCnt>::as_ptr(&t) == self.0);
+        SwpThin(<ThinArc<H, T> as arc_swap::RefCnt>::into_ptr((*t).clone()), core::marker::PhantomData)
+    }
+    fn count(&self) -> usize {
+        let t = ManuallyDrop::new(unsafe { <ThinArc<H, T> as arc_swap::RefCnt>::from_ptr(self.0) });
+        ThinArc::strong_count(&t)
+    }
+    fn data_addr(&self) -> usize {
+        let t = ManuallyDrop::new(unsafe { <ThinArc<H, T> as arc_swap::RefCnt>::from_ptr(self.0) });
+        &**t as *const HS<H, T> as *const u8 as usize
+    }
+    fn release(self) {
+        drop(unsafe { <ThinArc<H, T> as arc_swap::RefCnt>::from_ptr(self.0) })
+    }
+}
+
 // ------------------------------------------------------------------ the inductive state
 pub struct St<P: ?Sized> {
     pub w: ManuallyDrop<Arc<P>>,
